@@ -41,6 +41,9 @@ def main():
     def code_dtype(d):
         return SIGNAME.get(d, d)
 
+    BSHAPE = (numpy.arange(15).reshape(3, 5) + 1) * (1.0 + 0.5j) * \
+        numpy.array([[1, -1, 2, 1j, 3]])
+
     class Real:
         """A real TwoDResponse plus an independent ledger of what it
         accepted."""
@@ -49,6 +52,13 @@ def main():
             self.o = TwoDResponse()
             self.o.set_axis_1(ValueAxis(0.0, 1, 1.0))
             self.o.set_axis_3(ValueAxis(0.0, 1, 1.0))
+            # a shadow object fed with the same history on RECTANGULAR
+            # complex arrays (value x B): every view of it must be the
+            # scalar view times B
+            self.o2 = TwoDResponse()
+            self.o2.set_axis_1(ValueAxis(0.0, 3, 1.0))
+            self.o2.set_axis_3(ValueAxis(0.0, 5, 2.0))
+            self.shadow = None
             self.led = {}
             self.hist = []
 
@@ -67,6 +77,16 @@ def main():
                 ok = True
             except Exception:
                 ok = False
+            try:
+                self.o2._add_data(x * BSHAPE, resolution=LEVELS[level],
+                                  dtype=code_dtype(dtype),
+                                  tag=None if tag == "none" else tag)
+                ok2 = True
+            except Exception:
+                ok2 = False
+            if ok2 != ok and self.shadow is None:
+                self.shadow = "addition %r accepted=%s for 1x1 data, %s for " \
+                    "3x5 data" % ([level, dtype, tag], ok, ok2)
             self.hist.append(["add", level, dtype, tag, x, ok])
             if ok:
                 key = (level, dtype, tag)
@@ -86,6 +106,14 @@ def main():
                 ok = True
             except Exception:
                 ok = False
+            try:
+                self.o2.set_resolution(LEVELS[new])
+                ok2 = True
+            except Exception:
+                ok2 = False
+            if ok2 != ok and self.shadow is None:
+                self.shadow = "set_resolution(%s) accepted=%s for 1x1 data, " \
+                    "%s for 3x5 data" % (LEVELS[new], ok, ok2)
             self.hist.append(["setres", new, ok])
             if not ok:
                 if (not _same(before, self.snapshot()) or
@@ -124,6 +152,15 @@ def main():
             if d.shape != (1, 1):
                 raise MachineryFailure("unexpected view shape %r" % (d.shape,))
             z = complex(d[0, 0])
+            # the same view of the rectangular shadow
+            if self.shadow is None and self.o2.storage_initialized:
+                self.o2.set_data_flag(flag)
+                d2 = self.o2.d__data
+                d2 = numpy.zeros((3, 5)) if d2 is None else numpy.asarray(d2)
+                if d2.shape != (3, 5) or \
+                        numpy.abs(d2 - z * BSHAPE).max() > 1e-12:
+                    self.shadow = "view %r of 3x5 complex data is not the " \
+                        "1x1 view times the array" % (flag,)
             if z.imag != 0 or z.real != int(z.real):
                 return z
             return int(z.real)
@@ -175,6 +212,9 @@ def main():
                         bad.append(("pathway-view", dict(
                             type=t, tag=gg, view=v,
                             added=self.led_path(t, gg))))
+            if self.shadow is not None:
+                bad.append(("array-shaped-data", dict(what=self.shadow)))
+                self.shadow = None
             return bad, views
 
         def stored(self):
